@@ -228,6 +228,7 @@ func (s *server) startOrSwitchSession(sessionID string, req *clusterv1.SyncPartR
 }
 
 func (s *server) cleanupPreviousSession(previousSession *syncSession) {
+	wasCompleted := previousSession.completed
 	if !previousSession.completed {
 		if s.metrics != nil {
 			op, grp, sn, sr, st := s.resolveSessionLabels(previousSession)
@@ -239,7 +240,10 @@ func (s *server) cleanupPreviousSession(previousSession *syncSession) {
 	if previousSession.partCtx == nil {
 		return
 	}
-	if previousSession.partCtx.Handler != nil {
+	// Only a session that received its completion message may be installed. A session that is
+	// replaced before completing (e.g. its metadata-bearing first chunk arrives again) holds a
+	// partial part: it is closed, which discards it, and never finished.
+	if wasCompleted && previousSession.partCtx.Handler != nil {
 		if finishErr := previousSession.partCtx.Handler.FinishSync(); finishErr != nil {
 			if s.metrics != nil {
 				op, grp, sn, sr, st := s.resolveSessionLabels(previousSession)
